@@ -491,6 +491,7 @@ static int Run()
 
     // run `fn` in a throw-away fork (it may change the node), forwarding its output
     auto in_fork = [&](fp::Out& out, const std::string& what, const std::function<void()>& fn) {
+        out.send_counts(); // the child must not inherit (and re-send) counters accumulated so far
         out.flush();
         fflush(stdout);
         if (ck::ThreadCount() != 1) {
@@ -575,22 +576,7 @@ static int Run()
                 const bool must_fail = w.MustFail(d);
                 out.count("cases");
                 const std::string replay = "case " + c.name + "\nfile hex: " + vx::hex(c.file).substr(0, 20000);
-                if (must_fail && !c.in_memory) {
-                    // on-disk snapshot chainstate (LevelDB may start a thread): leaf process
-                    in_fork(out, c.name, [&] {
-                        std::string why;
-                        auto r = w.Attempt(c.file, false, &why);
-                        if (r == World::ACTIVATED) {
-                            out.violation("activated:" + c.name, "ActivateSnapshot succeeded for a file whose " + (d.ok ? std::string("decoded coin set / base block differs from the commitment") : "encoding is malformed (" + d.err + ")") + ": " + c.name, replay);
-                            return;
-                        }
-                        out.count(r == World::META_FAIL ? "rejected_at_metadata" : "rejected_by_activate");
-                        out.count("rejected_on_disk");
-                        out.distinct("rejected", c.name + ":disk");
-                        std::string diff = World::Diff(base, w.Observe());
-                        if (!diff.empty()) out.violation("state-changed-after-failure:edit-on-disk", "failed activation (" + why + ") changed the node:" + diff + " — case " + c.name, replay);
-                    });
-                } else if (must_fail) {
+                if (must_fail) {
                     std::string why;
                     auto r = w.Attempt(c.file, c.in_memory, &why);
                     if (r == World::ACTIVATED) {
@@ -603,6 +589,7 @@ static int Run()
                         _exit(0); // the node now runs on the bad snapshot: this process cannot continue
                     }
                     out.count(r == World::META_FAIL ? "rejected_at_metadata" : "rejected_by_activate");
+                    if (!c.in_memory) out.count("rejected_on_disk");
                     out.distinct("rejected", c.name);
                     World::State now = w.Observe();
                     std::string diff = World::Diff(base, now);
